@@ -375,6 +375,9 @@ func scalarPool(size uintptr) *sync.Pool {
 		pool = &sync.Pool{
 			New: func() interface{} { return make([]byte, size) },
 		}
+		if verifEnabled {
+			pool.New = verifWrapScalarPool(size)
+		}
 		scalarRC[size] = pool
 	}
 	scalarRCLock.Unlock()
@@ -402,6 +405,9 @@ func freeScalar(bs []byte) {
 
 	// put it back into pool
 	pool := scalarPool(size)
+	if verifEnabled && verifPoolPut(2, int(size), bs) {
+		return
+	}
 	pool.Put(bs)
 }
 
